@@ -439,6 +439,10 @@ def roundtrip_case(ctx, i, rng):
                 ctx.close("roundtrip-chi2", c1, c0, bound + 1e-13 * abs(c0), feats, {"cycles": cycles}, case)
             else:
                 ctx.count("chi2_bound_overflow")
+        elif ext:
+            # values up to 1e300: whether a product overflows to inf or stays just below it can depend on the last bit of a re-wrapped angle; the
+            # element-wise comparisons above (exact numbers) are the verdict for these graphs, the sum of overflowing terms is not
+            ctx.count("chi2_not_compared:overflow_in_an_extreme_value_graph")
         else:
             ctx.check("roundtrip-chi2", (not math.isfinite(c0)) and (not math.isfinite(c1)), dict(feats, nonfinite=True), {"chi2": [c0, c1]}, case)
     finally:
